@@ -12,7 +12,7 @@ class C05(Prop):
     id = "C05"
     driver = "Broker"
     quick_n = 350
-    thorough_n = 15000
+    thorough_n = 40000
     rule = ("same broker histories as C01; observation after every trade, mark-to-market call and valuation; "
             "non-trivial = a margined contract is held short or flipped, or >= 2 margined contracts are held at once, "
             "or a user-defined margin requirement other than the built-ins is used, or a spot contract with "
@@ -23,6 +23,10 @@ class C05(Prop):
         "real-valued observables compared within 1e-9 x gross scale",
     ]
     COMPARE = {"state", "nlv", "values", "weights", "mark", "markall", "tradeq", "trade"}
+
+    def exhaustive_cases(self, tier):
+        # thorough tier: every history of up to 4 operations over a small two-contract alphabet (11 110 histories)
+        return bs.small_scope_histories(4) if tier == "thorough" else []
 
     def gen(self, rng, tier):
         return bs.gen_history(rng, tier)
